@@ -74,6 +74,7 @@ def regenerate():
 
 
 def ensure_makefile():
+    sh([sys.executable, os.path.join(VERIF, "tools", "mkproject.py")], timeout=60)
     mk = os.path.join(COQ, "Makefile")
     proj = os.path.join(COQ, "_CoqProject")
     if (not os.path.exists(mk)) or os.path.getmtime(mk) < os.path.getmtime(proj):
